@@ -3,7 +3,42 @@
 PARTY = {"p1": 0, "p2": 1, "p3": 2, "p4": 3}
 
 
-def convert(steps):
+def batched(out):
+    """Consecutive submissions are delivered as ONE consumed batch through the message-queue processor
+    (SequentialSignatureProcessor) when the run holds a refused submission (bad / re-labelled) followed by an
+    honest one, and for every other remaining run of two or more; the rest goes one by one through the certifier."""
+    res = []
+    i = 0
+    nth = 0
+    while i < len(out):
+        if out[i]["a"] != "Sign":
+            res.append(out[i])
+            i += 1
+            continue
+        j = i
+        while j < len(out) and out[j]["a"] == "Sign":
+            j += 1
+        run = out[i:j]
+        refused_first = any((x.get("variant") == "bad" or x["who"] != x["label"]) and
+                            any(y.get("variant", "ok") == "ok" and y["who"] == y["label"] for y in run[k + 1:])
+                            for k, x in enumerate(run))
+        if len(run) >= 2 and (refused_first or nth % 2 == 0):
+            res.append({"a": "SignBatch", "via": "dmq",
+                        "items": [{k: v for k, v in x.items() if k != "a"} for x in run]})
+        else:
+            res.extend(run)
+        if len(run) >= 2:
+            nth += 1
+        i = j
+    return res
+
+
+def convert(steps, batch=True):
+    out = _convert(steps)
+    return batched(out) if batch else out
+
+
+def _convert(steps):
     out = []
     i = 0
     n = len(steps)
@@ -38,7 +73,7 @@ def convert(steps):
             else:
                 out.append({"a": "Tick"})
             for t in deferred:
-                out.extend(convert([t]))
+                out.extend(_convert([t]))
             i = j
             continue
         if a == "Tick":
